@@ -625,3 +625,5 @@ PROPS["C06"]["rule"] += (" After an injected storage failure (reported as an err
                          "operation acknowledged afterwards - must be there, live and rebuilt from storage.")
 PROPS["C02"]["rule"] += " In a third of the cases the facts are written in Go-typed form (nested core.Map, []string, []map[string]interface{}, [][]string), as Go callers and the Javascript bridge deliver them."
 PROPS["C14"]["rule"] += " A 'cyclic' family returns (or hands to Env.AddFact) a value that refers to itself: the call must come back and the process survive."
+PROPS["C16"]["rule"] += (" In a third of the in-memory cases the cron's context logs and its LogHook sleeps 1-300 ms (virtual) where the firing "
+                         "goroutine re-schedules a recurring job, so that harness operations fall into that moment.")
